@@ -33,6 +33,7 @@ MIN_REACH = {
     "states_judged": {"quick": 1500, "thorough": 30000},
     "grow_events_recorded": {"quick": 1200, "thorough": 25000},
     "failed_grows": {"quick": 40, "thorough": 800},
+    "crops_made_without_parent_dir_then_chdir": {"quick": 25, "thorough": 500},
     "grows_as_mpi_rank_0": {"quick": 60, "thorough": 1200},
     "reloads_by_same_constructor_call": {"quick": 30, "thorough": 600},
     "failed_grows_iteration_protocol_exception": {"quick": 15, "thorough": 250},
@@ -69,7 +70,10 @@ def cases(ctx):
                "shuffle": rng.choice([False, False, True, 11]), "hist": hist, "hseed": rng.randint(0, 10 ** 9),
                "kind": rng.choice(["int", "float", "str", "tuple:2", "array:2"]),
                # more batches requested than there are settings (the crop is capped to one setting per batch)
-               "over": rng.random() < 0.15}
+               "over": rng.random() < 0.15,
+               # the crop is made without parent_dir (it lives in the directory the program was in at that moment), and the
+               # program changes its working directory afterwards
+               "default_parent": rng.random() < 0.2}
 
 
 def _workload(case):
@@ -136,13 +140,34 @@ def run_case(ctx, case):
         ctor["batchsize"] = -(-case["n"] // case["B"])
     try:
         with quiet():
-            crop = xyzpy.Crop(fn=fn, name=name, parent_dir=tmp, **ctor)
+            if case.get("default_parent"):
+                cwd0 = os.getcwd()
+                elsewhere = ctx.mkdtemp("cwd")
+                os.chdir(tmp)
+                try:
+                    crop = xyzpy.Crop(fn=fn, name=name, **ctor)
+                finally:
+                    os.chdir(elsewhere)         # every later operation of this case runs from another (scratch) directory
+                ctx.count("crops_made_without_parent_dir_then_chdir")
+            else:
+                crop = xyzpy.Crop(fn=fn, name=name, parent_dir=tmp, **ctor)
             cropkit.sow(crop, w)
     except Exception as e:
         ctx.violation(case, "sow raised %r" % (e,), dict(sig, step="sow", **exc_sig(e)))
+        if case.get("default_parent") and "cwd0" in dir():
+            os.chdir(cwd0)
         ctx.rmtree(tmp)
         return
-    files = cropkit.batch_files(tmp, name)
+    files = cropkit.batch_files(tmp, name) if os.path.isdir(cropkit.crop_dir(tmp, name)) else {}
+    if not files:
+        ctx.violation(case, "after the sow there is no crop in the directory the Crop was created in (%s)" % (
+            "the program changed its working directory afterwards" if case.get("default_parent") else "explicit parent_dir"),
+            dict(sig, oracle="crop-location"))
+        if case.get("default_parent"):
+            os.chdir(cwd0)
+            ctx.rmtree(elsewhere)
+        ctx.rmtree(tmp)
+        return
     B = len(files)
     batch_settings = {i: [probe.canon(kw) for kw in cropkit.read_pickle(p)] for i, p in files.items()}
     allb = set(range(1, B + 1))
@@ -342,4 +367,7 @@ def run_case(ctx, case):
                     sorted(new), sorted(set(before) - set(after)), sorted(returned)), dict(sig, oracle="only-own-result"))
                 nviol += 1
         judge(op, crop)
+    if case.get("default_parent"):
+        os.chdir(cwd0)
+        ctx.rmtree(elsewhere)
     ctx.rmtree(tmp)
